@@ -2,6 +2,7 @@
 Helper lemmas for property C04, part 13: assembly of `minimal_image`.
 -/
 import DSymVerif.Proofs.MorphismQuot3
+import DSymVerif.Proofs.MorphismUF
 
 namespace DSymVerif.Mor
 open DSymVerif.DS
@@ -12,10 +13,10 @@ structure IsCoarsest (s : MV) (Q : Nat → Nat) : Prop where
   max : ∀ c : Nat → Nat, Cong s c → ∀ x y, InR s x → InR s y → c x = c y → Q x = Q y
 
 /-- the non-minimal branch of `minimal_image`, unfolded -/
-theorem minimalImage_eq_of (ds : DSymData) {q : Part} {st : NumState} {qs : DSetData}
-    (h1 : isMinimal (ofSym ds) = .ok false)
-    (h2 : foldAll (ofSym ds) ((ofSym ds).elements.drop 1) Part.new = .ok q)
-    (h3 : numberLoop q (ofSym ds).elements
+theorem minimalImage_eq_of (ds : DSymData) {q : UF} {st : NumState} {qs : DSetData}
+    (h1 : isMinimalUF (ofSym ds) = .ok false)
+    (h2 : foldAllUF (ofSym ds) ((ofSym ds).elements.drop 1) UF.new = .ok q)
+    (h3 : numberLoopUF q (ofSym ds).elements
       { src2img := Array.replicate (ds.size + 1) 0, img2src := Array.replicate (ds.size + 1) 0, next := 1 }
       = .ok st)
     (h4 : ¬ st.next < 1) (h5 : closuresInRange ds st = true)
@@ -67,7 +68,7 @@ theorem minimalImage_ok (ds : DSymData) (hs : ValidSym ds) (hsz : 1 ≤ ds.size)
     refine ⟨ds, fun d => d, q.find, ?_, hs, hsz, SymMor.id ds, fun k h1 h2 => ⟨k, h1, h2, rfl⟩, rfl,
       hcoarse, fun d d' hd1 hd2 hd1' hd2' => ⟨fun h => by have h' : d = d' := h; rw [h'], fun h => ?_⟩⟩
     · unfold minimalImage
-      simp only [hb]
+      simp only [isMinimalUF_eq, hb]
       exact asPartialDSym_self ds hs.toValidTables hsz hdim
     · have hno := (isMinimal_spec (ofSym ds) hR hC hsz' true hb).1 rfl
       apply cong_trivial_of_class_one (ofSym ds) hR hC hI hconn q.find hcg.closed ?_ d d'
@@ -80,10 +81,29 @@ theorem minimalImage_ok (ds : DSymData) (hs : ValidSym ds) (hsz : 1 ≤ ds.size)
     have hds : ∀ d, d ∈ (ofSym ds).elements.drop 1 → InR (ofSym ds) d := fun d hd => by
       have := (mem_elements_drop (ofSym ds) d).1 hd
       exact ⟨by omega, this.2⟩
-    have hpinv := foldAll_pinv (ofSym ds) hR hsz' _ Part.new q hds (PInv.new _) hq
-    obtain ⟨st, hst, inv⟩ := numberLoop_spec (ofSym ds) q hpinv
-    have inv' : NInv ds.size q ds.size st := inv
-    obtain ⟨hN, hnext⟩ := inv'.numbering hsz
+    -- the union–find run of the same loop: same classes, representatives inside 1..size
+    have hsim := foldAllUF_sim (ofSym ds) ((ofSym ds).elements.drop 1) UF.new Part.new Sim.new
+    rw [hq] at hsim
+    obtain ⟨g, hg, hgq⟩ := hsim.ok_right
+    obtain ⟨_, hgr⟩ := foldAllUF_range (ofSym ds) hR hsz' _ UF.new g hds DSymVerif.PartP.gwf_new
+      (GR.new _) hg
+    have hpinv := tableOf_pinv (ofSym ds) hgq.wf hgr
+    obtain ⟨st, hst0, inv⟩ := numberLoop_spec (ofSym ds) (tableOf (ofSym ds).size (DSymVerif.PartP.grep g)) hpinv
+    have hst : numberLoopUF g (ofSym ds).elements
+        { src2img := Array.replicate (ds.size + 1) 0, img2src := Array.replicate (ds.size + 1) 0, next := 1 }
+        = .ok st := by
+      rw [numberLoopUF_eq (ofSym ds).size _ g g _ hgq.wf (fun _ => rfl) (fun d hd => by
+        rw [elements_eq_range', List.mem_range'_1] at hd; omega)]
+      exact hst0
+    have inv' : NInv ds.size (tableOf (ofSym ds).size (DSymVerif.PartP.grep g)) ds.size st := inv
+    obtain ⟨hN0, hnext⟩ := inv'.numbering hsz
+    -- the numbering is one of the classes of `q` (same classes as the union–find)
+    have hN : Numbering ds.size q.find (fun d => st.src2img.getD d 0) (fun k => st.img2src.getD k 0)
+        (st.next - 1) := by
+      refine ⟨hN0.range, fun d d' hd1 hd2 hd1' hd2' => ?_, hN0.rep, hN0.one⟩
+      rw [hN0.iff d d' hd1 hd2 hd1' hd2', tableOf_find, tableOf_find,
+        if_pos (show d ≤ (ofSym ds).size from hd2), if_pos (show d' ≤ (ofSym ds).size from hd2')]
+      exact hgq.ker d d'
     have hK : 1 ≤ st.next - 1 := by omega
     have hop : ∀ i k, i ≤ ds.dim → 1 ≤ k → k ≤ st.next - 1 →
         (fun i d => (ds.op i (st.img2src.getD d 0)).map (fun e => st.src2img.getD e 0)) i k =
@@ -104,7 +124,8 @@ theorem minimalImage_ok (ds : DSymData) (hs : ValidSym ds) (hsz : 1 ≤ ds.size)
     refine ⟨c, fun d => st.src2img.getD d 0, q.find, ?_, hcv, by rw [hcsize]; exact hK,
       ⟨hconj, hdeg⟩, fun k hk1 hk2 => ?_, hN.one, hcoarse,
       fun d d' hd1 hd2 hd1' hd2' => hN.iff d d' hd1 hd2 hd1' hd2'⟩
-    · rw [minimalImage_eq_of ds hb hq hst (by omega) (closuresInRange_ok ds hs.set inv') hqs]
+    · rw [minimalImage_eq_of ds (by rw [isMinimalUF_eq]; exact hb) hg hst (by omega)
+        (closuresInRange_ok ds hs.set inv') hqs]
       exact hc
     · rw [hcsize] at hk2
       have r := hN.rep k hk1 hk2
